@@ -40,6 +40,11 @@ func stateAnnotation(s *Scanner, c byte) *jerr.JApiError {
 func stateMultilineAnnotationTextStart(s *Scanner, c byte) *jerr.JApiError {
 	s.foundAt(s.curIndex, AnnotationBegin)
 	s.step = stateMultilineAnnotation
+	if c == AnnotationDelimiterPart {
+		// The '*' in front of this '/' belongs to the opening "/*", it can't
+		// close the annotation ("/*/" isn't a complete annotation).
+		return nil
+	}
 	return stateMultilineAnnotation(s, c)
 }
 
